@@ -375,7 +375,19 @@ class Interp:
         if m is None:
             self.note(fr, "unmodelled expression kind %s" % k, e)
             return (mk("unknown", k, e.get("sp", "")), env)
-        return m(e, env, fr)
+        r = m(e, env, fr)
+        if r is not None and "adj" in e:
+            # auto-deref through an overloaded Deref (e.g. `&LAZY_STATIC` used where `&T` is expected)
+            for a in e["adj"]:
+                if a.get("k") == "Deref" and a.get("overloaded"):
+                    v = r[0]
+                    if v.op in ("static", "lazy"):
+                        class _C:      # minimal call context for lazy_value
+                            pass
+                        c = _C()
+                        c.I, c.fr, c.env, c.e = self, fr, r[1], e
+                        r = (self.S.lazy_value(c, v), r[1])
+        return r
 
     def exprs(self, es, env, fr):
         vals = []
